@@ -118,7 +118,13 @@ def check_persistence(it, fn, a):
     server, first_opts, preexisting, dryrun = a
     with Sandbox() as sb:
         if preexisting:
-            (Path(sb.tmp) / "ofxget.cfg").write_text(f"[{server}]\n" + "\n".join(f"{k} = {v}" for k, v in preexisting.items()) + "\n")
+            glob_ = {k[len("DEFAULT."):]: v for k, v in preexisting.items() if k.startswith("DEFAULT.")}
+            own = {k: v for k, v in preexisting.items() if not k.startswith("DEFAULT.")}
+            text0 = ""
+            if glob_:
+                text0 += "[DEFAULT]\n" + "\n".join(f"{k} = {v}" for k, v in glob_.items()) + "\n\n"
+            text0 += f"[{server}]\n" + "\n".join(f"{k} = {v}" for k, v in own.items()) + "\n"
+            (Path(sb.tmp) / "ofxget.cfg").write_text(text0)
         argv = ["stmt", server, "--write"] + (["--dryrun"] if dryrun else [])
         for o in first_opts:
             argv += o
@@ -176,13 +182,16 @@ def cases_persistence(tier):
         if len(set(flags)) != len(flags):
             continue
         pre = {}
-        if rng.random() < 0.4:
-            pre = {rng.choice(["version", "appid", "org"]): rng.choice(["102", "OLD", "151"])}
-            pre = {k: (v if k != "version" or v.isdigit() else "151") for k, v in pre.items()}
+        if rng.random() < 0.5:
+            # an older value in the server's section or in the user's [DEFAULT] section
+            pre = {rng.choice(["version", "appid", "org", "DEFAULT.version", "DEFAULT.appid", "DEFAULT.language"]): rng.choice(["102", "OLD", "151"])}
+            pre = {k: (v if not k.endswith("version") or v.isdigit() else "151") for k, v in pre.items()}
         out.append([rng.choice(["myfi", "usaa", "myfi"]), opts, pre, rng.random() < 0.15])
     # a value equal to the built-in default must still supersede what the FI database / an older file says
     out.append(["usaa", [["--version", "203"], ["-u", "porkypig"], ["-C", "111"]], {}, False])
     out.append(["myfi", [["--url", "https://bank.example/ofx"], ["--version", "203"]], {"version": "102"}, False])
+    out.append(["myfi", [["--url", "https://bank.example/ofx"], ["--version", "203"]], {"DEFAULT.version": "102"}, False])
+    out.append(["myfi", [["--url", "https://bank.example/ofx"], ["--appid", "QWIN"]], {"DEFAULT.appid": "MONEY"}, False])
     return out
 
 
